@@ -27,7 +27,11 @@ RULE = ("decode(s, L, G, v, mode, check) on: pristine walks; the walk with its i
 REASONS = ("branch", "single", "dead", "symbol")
 FOREIGN = ["N", "a", "c", "-", "U", " ", "É", "中", "\n", "\t", "\r", "AC", ""]
 # symbols that break naive handling: format / escape characters, NUL, and code points that alias A, C, G, T modulo 128 / 256 / 65536
-TRICKY = ["%", "%s", "{", "}", "\\", "\x00", "'", '"'] + [chr(ord(b) + off) for b in "ACGT" for off in (128, 256, 512, 65536)]
+TRICKY = ["%", "%s", "{", "}", "\\", "\x00", "'", '"'] + [chr(ord(b) + off) for b in "ACGT" for off in (128, 256, 512, 65536)] + [
+    # code points that Unicode normalisation / case folding maps onto a nucleotide letter (full-width, circled, mathematical bold,
+    # small letters): a decoder that "cleans" its input would accept them
+    chr(c + "ACGT".index(b) * 0 + (ord(b) - 65)) for b in "ACGT" for c in (0xFF21, 0x24B6, 0x1D400, 0x1D5A0)] + list("acgt")
+LOOKALIKES = {b: [chr(c + ord(b) - 65) for c in (0xFF21, 0x24B6, 0x1D400, 0x1D5A0, 0x1D670)] + [b.lower(), chr(ord(b) + 128), chr(ord(b) + 65536)] for b in "ACGT"}
 
 
 def setup(ctx):
@@ -181,7 +185,8 @@ def generate(ctx):
             for i, ch in enumerate(w):           # a tricky symbol at an out-degree-1 position and at a branching position
                 d = int((acc[v] >= 0).sum())
                 if (d == 1 and rng.random() < 0.5) or (d > 1 and rng.random() < 0.15):
-                    strings.append(("tricky-symbol", w[:i] + rng.choice(TRICKY) + w[i + 1:]))
+                    sym = rng.choice(TRICKY) if rng.random() < 0.6 else rng.choice(LOOKALIKES[ch])   # a look-alike of the walk's own letter
+                    strings.append(("tricky-symbol", w[:i] + sym + w[i + 1:]))
                 v = int(acc[v, "ACGT".index(ch)])
             for ws in ("\n", "\r\n", " ", "\t"):
                 strings.append(("foreign-tail", w + ws))          # a walk followed by white space is not a walk
